@@ -21,8 +21,14 @@ func condTrue(c map[string]any, typ string) bool {
 }
 
 // Check is the C06 transition monitor.
-func Check(before *world.World, _ world.Event, pass *world.Pass, after *world.World) []world.Finding {
-	if pass == nil || pass.Ctrl != world.CtrlObjectSet {
+func Check(before *world.World, ev world.Event, pass *world.Pass, after *world.World) []world.Finding {
+	if pass == nil {
+		return nil
+	}
+	if pass.Ctrl == world.CtrlPhase {
+		return checkPhase(before, pass)
+	}
+	if pass.Ctrl != world.CtrlObjectSet {
 		return nil
 	}
 	osKey := osw.OSKey(pass.Key.Name)
@@ -145,6 +151,63 @@ func Check(before *world.World, _ world.Event, pass *world.Pass, after *world.Wo
 			if l := osw.ControllerOfList(post); len(l) > 0 {
 				bad("archived-with-controllerOf", "status write #%d reports Archived=True with controllerOf=%v", i, l)
 			}
+		}
+	}
+	return out
+}
+
+// checkPhase judges the status writes of the ObjectSetPhase controller the same way: the phase's
+// Available=True is what the ObjectSet relies on for a delegated phase.
+func checkPhase(before *world.World, pass *world.Pass) []world.Finding {
+	pk := world.PKOKey("ObjectSetPhase", pass.Key.Namespace, pass.Key.Name)
+	var out []world.Finding
+	bad := func(id, f string, a ...any) {
+		out = append(out, world.Finding{Monitor: "status-claims", Identity: id, Message: fmt.Sprintf(f, a...)})
+	}
+	v := osw.View{Before: before.S, Pass: pass}
+	var read map[string]any
+	for _, r := range pass.Reqs {
+		if r.Verb == "get" && r.Key == pk && r.Err == nil {
+			read = r.Resp
+			break
+		}
+	}
+	if read == nil || kmodel.Terminating(read) {
+		// a phase being torn down carries its last status along; the ObjectSet does not consult it
+		// any more (the statement binds the ObjectSet's own claims), so it is not judged
+		return nil
+	}
+	for i, r := range pass.Reqs {
+		if r.Key != pk || r.Sub != "status" || !r.IsWrite() || r.Err != nil || r.Post == nil {
+			continue
+		}
+		post := r.Post
+		st, _, og, ok := world.Condition(post, "Available")
+		if !ok || st != "True" {
+			continue
+		}
+		id := world.IdentOf(pk, post)
+		if read != nil && og != world.Generation(read) {
+			bad("phase-available-for-other-generation", "ObjectSetPhase status write #%d sets Available=True for generation %d but the pass read generation %d", i, og, world.Generation(read))
+		}
+		seen := map[string]bool{}
+		for _, ok := range osw.PhaseObjects(post, pk.Namespace) {
+			resp, was := v.LastResponse(ok, i)
+			if !was || resp == nil {
+				bad("phase-available-without-evidence", "ObjectSetPhase %s status write #%d sets Available=True although %s was not found present in this pass", pk.Name, i, ok)
+				continue
+			}
+			if !osw.RefProbe(resp) {
+				bad("phase-available-without-evidence", "ObjectSetPhase %s status write #%d sets Available=True although %s fails its probes in what the pass read (status class %s)", pk.Name, i, ok, osw.StatusClass(resp))
+			}
+			if world.ControlledBy(resp, false, id) {
+				seen[osw.KeyString(ok)] = true
+			}
+		}
+		got := osw.ControllerOfList(post)
+		want := keysOf(seen)
+		if strings.Join(got, ",") != strings.Join(want, ",") {
+			bad("phase-controllerOf-mismatch", "ObjectSetPhase %s status write #%d with Available=True reports controllerOf=%v but the pass saw %v under its control", pk.Name, i, got, want)
 		}
 	}
 	return out
